@@ -24,7 +24,7 @@ DoneProg == [k |-> "done", id |-> 0, tid |-> 1]
 CoreCmd == [host |-> ROOT, aborted |-> FALSE, alive |-> TRUE, out |-> {}, exec |-> TRUE, wreg |-> FALSE, pass |-> "spawn"]
 
 CInit ==
-  /\ cmds = (CORE :> CoreCmd) /\ tasks = <<>> /\ ready = {} /\ run = NONE /\ reqs = <<>>
+  /\ cmds = (CORE :> CoreCmd) /\ tasks = <<>> /\ ready = {} /\ run = NONE /\ reqs = NoReqs
   /\ joinreg = <<>> /\ rq = (CORE :> <<>>) /\ sq = (CORE :> <<>>)
   /\ modelLog = <<>> /\ phase = "idle" /\ registry = <<>>
 
